@@ -97,6 +97,63 @@ Proof.
   unfold lobe. rewrite (firstn_neg (N / 2) v), argmax_abs_neg, firstn_neg. apply lsum_neg.
 Qed.
 
+(* ---- what np.argmax(np.abs(.)) returns *)
+Lemma get_app1 (l1 l2 : list Q) i : (i < length l1)%nat -> get (l1 ++ l2) i = get l1 i.
+Proof. unfold get. intros H. apply app_nth1. exact H. Qed.
+Lemma get_app_mid (l1 l2 : list Q) a : get (l1 ++ a :: l2) (length l1) = a.
+Proof. unfold get. rewrite app_nth2 by lia. rewrite Nat.sub_diag. reflexivity. Qed.
+
+Lemma Qle_bool_false a b : Qle_bool a b = false -> b < a.
+Proof. intros H. apply Qnot_le_lt. intros C. apply Qle_bool_iff in C. congruence. Qed.
+
+Lemma argmax_abs_from_spec : forall l pre bi bv,
+  (bi < length pre)%nat ->
+  bv == Qabsq (get pre bi) ->
+  (forall i, (i < length pre)%nat -> Qabsq (get pre i) <= bv) ->
+  (forall i, (i < bi)%nat -> Qabsq (get pre i) < bv) ->
+  let p := argmax_abs_from l (length pre) bi bv in
+  (p < length (pre ++ l))%nat /\
+  (forall i, (i < length (pre ++ l))%nat -> Qabsq (get (pre ++ l) i) <= Qabsq (get (pre ++ l) p)) /\
+  (forall i, (i < p)%nat -> Qabsq (get (pre ++ l) i) < Qabsq (get (pre ++ l) p)).
+Proof.
+  induction l as [|a l IH]; intros pre bi bv Hbi Hbv Hle Hlt; cbn [argmax_abs_from].
+  - rewrite app_nil_r. split; [exact Hbi|]. split.
+    + intros i Hi. rewrite <- Hbv. apply Hle. exact Hi.
+    + intros i Hi. rewrite <- Hbv. apply Hlt. exact Hi.
+  - assert (Lp : length (pre ++ [a]) = S (length pre)) by (rewrite app_length; simpl; lia).
+    assert (Eq : pre ++ a :: l = (pre ++ [a]) ++ l) by (rewrite <- app_assoc; reflexivity).
+    destruct (Qle_bool (Qabsq a) bv) eqn:E.
+    + apply Qle_bool_iff in E. rewrite Eq, <- Lp. apply IH.
+      * rewrite Lp. lia.
+      * rewrite get_app1 by exact Hbi. exact Hbv.
+      * intros i Hi. rewrite Lp in Hi. destruct (Nat.eq_dec i (length pre)) as [->|Hne].
+        -- rewrite get_app_mid. exact E.
+        -- rewrite get_app1 by lia. apply Hle. lia.
+      * intros i Hi. rewrite get_app1 by lia. apply Hlt. exact Hi.
+    + apply Qle_bool_false in E. rewrite Eq, <- Lp. apply IH.
+      * rewrite Lp. lia.
+      * rewrite get_app_mid. reflexivity.
+      * intros i Hi. rewrite Lp in Hi. destruct (Nat.eq_dec i (length pre)) as [->|Hne].
+        -- rewrite get_app_mid. apply Qle_refl.
+        -- rewrite get_app1 by lia. apply Qlt_le_weak. apply (Qle_lt_trans _ bv); [apply Hle; lia|exact E].
+      * intros i Hi. rewrite get_app1 by lia. apply (Qle_lt_trans _ bv); [apply Hle; lia|exact E].
+Qed.
+
+(* np.argmax(np.abs(l)) : the FIRST index at which |l| is largest *)
+Theorem argmax_abs_spec l :
+  l <> [] ->
+  (argmax_abs l < length l)%nat /\
+  (forall i, (i < length l)%nat -> Qabsq (get l i) <= Qabsq (get l (argmax_abs l))) /\
+  (forall i, (i < argmax_abs l)%nat -> Qabsq (get l i) < Qabsq (get l (argmax_abs l))).
+Proof.
+  destruct l as [|a l]; [congruence|]. intros _. unfold argmax_abs.
+  apply (argmax_abs_from_spec l [a] 0%nat (Qabsq a)).
+  - simpl; lia.
+  - reflexivity.
+  - intros i Hi. simpl in Hi. replace i with 0%nat by lia. apply Qle_refl.
+  - intros i Hi. lia.
+Qed.
+
 Lemma fix_even_cases v : fix_even v = v \/ fix_even v = neg v.
 Proof. unfold fix_even. destruct (is_neg (lsum v)); auto. Qed.
 Lemma fix_odd_cases N v : fix_odd N v = v \/ fix_odd N v = neg v.
